@@ -3921,8 +3921,9 @@ spmatrix_ass_subscr(spmatrix* self, PyObject* args, PyObject* value)
     int_t rhs_i, rhs_j = Js[0].key;
     for (j=0; j<SP_NCOLS(self); j++) {
 
-      if (rhs_j < j && rhs_cntj++ < lgtJ-1) {
-        rhs_j = Js[rhs_cntj].key;
+      /* J can hold a column index several times */
+      while (rhs_j < j && rhs_cntj < lgtJ-1) {
+        rhs_j = Js[++rhs_cntj].key;
       }
 
       rhs_cnti = 0; rhs_i = Is[0].key;
@@ -4025,6 +4026,10 @@ spmatrix_ass_subscr(spmatrix* self, PyObject* args, PyObject* value)
     int_t rhs_cnti, rhs_cntj = -1, tot_cnt = 0, rhs_offs_rptr = 0;
     int_t rhs_i, rhs_j = -1;
     for (j=0; j<SP_NCOLS(self); j++) {
+
+      /* J can hold a column index several times */
+      while (rhs_j < j && rhs_cntj+1 < lgtJ-1 && Js[rhs_cntj+1].key < j)
+        rhs_cntj++;
 
       if (rhs_j < j && rhs_cntj++ < lgtJ-1) {
         rhs_j = Js[rhs_cntj].key;
